@@ -11,6 +11,7 @@ import os
 import pkgutil
 
 from harness import core, gen
+from harness.catalogue import canon
 from harness.drivers.c09 import pack
 
 ELEMENT_WIDTHS = {"AccessTypes": 1, "CsbkOpcodes": 6, "DataPacketFormats": 4, "DataTypes": 4, "DefinedDataFormats": 6, "FeatureSetIDs": 8,
@@ -134,7 +135,7 @@ def run(ctx):
     cases = []
     for c in cases_in + extra:
         name, vals = c["name"], c["vals"]
-        rec = {"name": name, "vals": vals, "err": "", "n": 0, "bits": [0], "dec": {k: -1 for k in vals}, "bits2": [0]}
+        rec = {"name": name, "vals": vals, "err": "", "n": 0, "bits": [0], "dec": {k: -1 for k in vals}, "bits2": [0], "objneq": ""}
         try:
             # one case in seven leaves out some of the arguments the constructor declares optional: whatever the defaults mean,
             # the PDU has its fixed length and survives (the omitted fields are judged on that, not on a value)
@@ -156,6 +157,14 @@ def run(ctx):
             if omit and len(b) == sum(d["w"] for d in layouts[name]):
                 rec["vals"] = dict(vals, **{f: rec["dec"][f] for f in omit})
             rec["bits2"] = pack(p.as_bits())
+            if not omit:
+                # fields that are objects of the library: same value (same canonical rendering) => equal under ==
+                for k_, v_ in vars(o).items():
+                    if type(v_).__module__.startswith("okdmr.dmrlib") and not isinstance(v_, enum.Enum) and hasattr(p, k_):
+                        w_ = getattr(p, k_)
+                        if type(w_) is type(v_) and canon(v_) == canon(w_) and not (v_ == w_):
+                            rec["objneq"] = k_
+                            break
             if len(cases) % 2:
                 # every other case is handled by a caller that edits what it built and what it got back afterwards
                 seen = set()          # an object reachable from both is edited once
